@@ -1162,7 +1162,7 @@ class Step(Function):
         self.timestep = UnaryOperator(timestep)
 
     def term(self, time="t"):
-        return "({} if {}>{} else 0.0)".format(self.height.term(time), time, self.timestep.term(time))
+        return "({} if {}>({}) else 0.0)".format(self.height.term(time), time, self.timestep.term(time))
 
 
 class Pulse(Function):
@@ -1388,7 +1388,7 @@ class Sinwave(Function):
         self.amplitude = amplitude
         self.period = period
 
-    def term(self, time="t"): return "( np.sin(2*np.pi / {} * ({}-model.starttime) ) * {} )".format(
+    def term(self, time="t"): return "( np.sin(2*np.pi / ({}) * ({}-model.starttime) ) * ({}) )".format(
         extractTerm(self.period, time), time, extractTerm(self.amplitude, time))
 
 
@@ -1397,7 +1397,7 @@ class Coswave(Function):
         self.amplitude = amplitude
         self.period = period
 
-    def term(self, time="t"): return "( np.cos(2*np.pi / {} * ({}-model.starttime) ) * {} )".format(
+    def term(self, time="t"): return "( np.cos(2*np.pi / ({}) * ({}-model.starttime) ) * ({}) )".format(
         extractTerm(self.period, time), time, extractTerm(self.amplitude, time))
 
 
@@ -1436,7 +1436,7 @@ class Combinations(Function):
         n = extractTerm(self.n, time)
         r = extractTerm(self.r, time)
 
-        return '(math.factorial({}) / (math.factorial({}) * math.factorial( {}-{})))'.format(n, r, n, r)
+        return '(math.factorial({}) / (math.factorial({}) * math.factorial( ({})-({}))))'.format(n, r, n, r)
 
 
 class Exprnd(Function):
@@ -1476,7 +1476,7 @@ class Geometric(Function):
     def __init__(self, p):
         self.p = p
 
-    def term(self, time="t"): return '(1 if ( {}<=0 or {}>1 ) else (np.random.geometric(max(0, min(1,{})))))'.format(
+    def term(self, time="t"): return '(1 if ( ({})<=0 or ({})>1 ) else (np.random.geometric(max(0, min(1,{})))))'.format(
         extractTerm(self.p, time), extractTerm(self.p, time), extractTerm(self.p, time))
 
 
@@ -1516,7 +1516,7 @@ class Montecarlo(Function):
     def __init__(self, p):
         self.p = p
 
-    def term(self, time="t"): return "(1 if random.uniform(0,100) < ({}*model.dt) else 0)".format(extractTerm(self.p, time))
+    def term(self, time="t"): return "(1 if random.uniform(0,100) < (({})*model.dt) else 0)".format(extractTerm(self.p, time))
 
 
 class Normal(Function):
@@ -1548,7 +1548,7 @@ class Pareto(Function):
         self.shape = shape
         self.scale = scale
 
-    def term(self, time="t"): return '(np.nan if ({} == 0) else (np.random.pareto({}) * {} ) )'.format(
+    def term(self, time="t"): return '(np.nan if (({}) == 0) else (np.random.pareto({}) * ({}) ) )'.format(
         extractTerm(self.scale, time), extractTerm(self.shape, time), extractTerm(self.scale, time))
 
 
@@ -1584,5 +1584,5 @@ class Weibull(Function):
         self.shape = shape
         self.scale = scale
 
-    def term(self, time="t"): return '(np.random.weibull({}) * {} )'.format(
+    def term(self, time="t"): return '(np.random.weibull({}) * ({}) )'.format(
         extractTerm(self.shape, time), extractTerm(self.scale, time))
